@@ -14,6 +14,7 @@ SERVICE_RUNNER = "cobald.daemon.runners.service:ServiceRunner"
 SERVICE_UNIT = "cobald.daemon.runners.service:ServiceUnit"
 ORPHANED = "cobald.daemon.runners.base_runner:OrphanedReturn"
 GATHER = ("glob", "ext:asyncio.gather")
+INVALID_STATE = exc_value("ext:asyncio.InvalidStateError", "future already done")
 
 OUTCOMES = {
     "return None": ("value", abs_value("none", "result")),
@@ -151,6 +152,17 @@ def receiving_side(prog, cls, ch):
                     t = n.targets[0]
                     if isinstance(t, ast.Tuple) and len(t.elts) == 2 and isinstance(t.elts[1], ast.Name):
                         recv_name = t.elts[1].id
+                        # the receive side may be handed to a helper that owns the loop
+                        for c in ast.walk(fi.node):
+                            if isinstance(c, ast.Call) and any(isinstance(a, ast.Name) and a.id == recv_name for a in c.args) and isinstance(c.func, ast.Attribute) and util.dotted(c.func.value) == "self":
+                                h = prog.lookup_method(cls, c.func.attr)
+                                if h is not None:
+                                    idx = [i for i, a in enumerate(c.args) if isinstance(a, ast.Name) and a.id == recv_name][0]
+                                    if idx < len(h.params()):
+                                        hp = h.params()[idx]
+                                        for n2 in ast.walk(h.node):
+                                            if isinstance(n2, (ast.AsyncFor, ast.For)) and isinstance(n2.iter, ast.Name) and n2.iter.id == hp and isinstance(n2.target, ast.Name):
+                                                return h, n2.target.id
             if recv_name:
                 for n in ast.walk(fi.node):
                     if isinstance(n, (ast.AsyncFor, ast.For)) and isinstance(n.iter, ast.Name) and n.iter.id == recv_name and isinstance(n.target, ast.Name):
@@ -212,12 +224,14 @@ def outcome_table(chk, cls, fi, kind):
     for label, inj in OUTCOMES.items():
         for done in (False, True):
 
-            def hook(it, path, ct, node, inj=inj):
+            def hook(it, path, ct, node, inj=inj, done=done):
                 if ct[0] != "call":
                     return None
                 if ct[1] == PAY:
                     return [inj]
                 f = ct[1]
+                if done and F is not None and f in (("attr", F, "set_exception"), ("attr", F, "set_result")):
+                    return [("raise", INVALID_STATE)]  # library fact: completing a done future raises
                 # call_soon_threadsafe(self.h, x): deferred call of h(x) on the loop
                 if f[0] == "attr" and f[2] in ("call_soon_threadsafe", "call_soon") and ct[2] and ct[2][0][0] == "attr" and ct[2][0][1] == SELF:
                     m = prog.lookup_method(cls, ct[2][0][2])
@@ -261,6 +275,10 @@ def outcome_table(chk, cls, fi, kind):
                 else:
                     carried_ok = lambda x, v=v: x == v  # noqa: E731
                     what = "that very exception"
+                if o.kind == "raise" and o.value == INVALID_STATE:
+                    chk.bad(rule, name, "set_exception is called on a failure future that is already done and the InvalidStateError is not handled: the second of two nearly simultaneous failures crashes the monitor / the loop callback", node=fi.node, stmt="signal-when-done", input=inp)
+                    ok = False
+                    continue
                 if o.kind == "raise":
                     if carried_ok(o.value) and PROPAGATES[kind](o.value[1]):
                         table.append((label, "propagates"))
@@ -281,9 +299,6 @@ def outcome_table(chk, cls, fi, kind):
                     continue
                 # normal completion: must have signalled (unless a failure was already recorded: first failure wins)
                 if done:
-                    if sigs:
-                        chk.bad(rule, name, "set_exception is called on a future that is already done (InvalidStateError in the loop)", node=fi.node, stmt="signal-when-done", input=inp)
-                        ok = False
                     table.append((label, "first failure wins"))
                     continue
                 if not sigs:
@@ -663,6 +678,34 @@ def strong_registry(chk, found):
                 chk.undecided(rule, cls.qual, "task registry container %s not recognised" % txt, node=n, aux=True)
 
 
+def orphan_total(chk):
+    """O1.12: building the OrphanedReturn for ANY returned value must not itself fail (it happens outside the monitors' try)"""
+    prog = chk.program
+    rule = "O1.12"
+    cls = prog.cls(ORPHANED)
+    init = prog.lookup_method(cls, "__init__")
+    if init is None:
+        chk.ok(rule, cls.qual, "no custom constructor", node=cls.node)
+        return
+    params = init.params()
+    ok = True
+    for n in ast.walk(init.node):
+        if isinstance(n, ast.BinOp) and isinstance(n.op, ast.Mod) and isinstance(n.left, ast.Constant) and isinstance(n.left.value, str):
+            chk.count()
+            if not isinstance(n.right, (ast.Tuple, ast.Dict)):
+                chk.bad(rule, init.qual, "the message is formatted as `%s %% %s`: a returned tuple is taken as the argument list of the format and raises TypeError, outside the monitors' try block -- the failure of a payload returning () or (1, 2) is lost" % (util.unparse(n.left), util.unparse(n.right)), node=n, stmt="format-operand-not-tuple")
+                ok = False
+        if isinstance(n, ast.Call) and util.dotted(n.func) in ("len", "iter", "sorted", "int", "float") and any(isinstance(a, ast.Name) and a.id in params for a in n.args):
+            chk.bad(rule, init.qual, "%s on the returned value can raise for arbitrary values" % util.unparse(n), node=n, stmt="partial-operation")
+            ok = False
+    stores = {t.attr: util.unparse(st.value) for st in ast.walk(init.node) if isinstance(st, ast.Assign) for t in st.targets if isinstance(t, ast.Attribute)}
+    if stores.get("value") != (params[1] if len(params) > 1 else None):
+        chk.bad(rule, init.qual, "the orphaned-return error does not carry the returned value unchanged (value = %s)" % stores.get("value"), node=init.node, stmt="value-not-carried")
+        ok = False
+    if ok:
+        chk.ok(rule, init.qual, "the constructor formats its operands through a tuple and stores the returned value unchanged: it cannot fail on any value", node=init.node)
+
+
 def run(chk):
     chk.facts.update({k: v for k, v in libfacts.cross_read().items() if "trio" in k or "asyncio" in k})
     found = chk.guard("O1.1", "<runners>", monitors_and_outcomes, chk) or {}
@@ -670,6 +713,11 @@ def run(chk):
     chk.guard("O1.5", META, meta_chain, chk)
     chk.guard("O1.9", "<runners>", thread_affinity, chk, found)
     chk.guard("O1.11", "<runners>", strong_registry, chk, found)
+    chk.guard("O1.12", ORPHANED, orphan_total, chk)
     from . import c02
 
     chk.guard("O1.10", META, c02.mapping_cleared, chk, "O1.10")
+    # "never keeps running": after a failure the run only ends when close-all completes (shared with C02)
+    chk.guard("O2.1", META, c02.supervisor, chk)
+    chk.guard("O2.3", "<asyncio runner>", c02.asyncio_runner, chk)
+    chk.guard("O2.4", "<trio runner>", c02.trio_runner, chk)
